@@ -736,6 +736,7 @@ func RunC13(c *Ctx, r *Report) {
 		bad = append(bad, "a payload decoder receives the generic header octets")
 	}
 	r.Check(len(bad) == 0 && nLoads > 0, rule4, c.FuncName(fn), c.Pos(fn.Pos()), fmt.Sprintf("%d load(s) of octet 1, each flowing only into the default arm's test; payload decoders receive b[4:length]", nLoads), "the flags octet also influences: "+strings.Join(bad, "; "))
+	c.typeCodeRule(r, prefix+"type-code-decides-no-error", fn)
 
 	// rule 5: progress and bounds of this function
 	e := &E2{C: c, R: r, Prefix: prefix + "progress.", Strict: true}
@@ -770,4 +771,171 @@ func (c *Ctx) allPathsReturnError(b *ssa.BasicBlock, loop *loopInfo) (bool, stri
 		}
 	}
 	return true, ""
+}
+
+// typeCodeRule: a payload's type code - octet 16 of the IKE header, octet 0 of a generic payload header, the
+// first-type argument of the walker, the NextPayload fields they are stored in - selects the decoder (the
+// switch arms) and nothing else: on the way from a datagram to the decoded message no test whose failing
+// side only returns an error may depend on it. Otherwise an unsupported payload is skipped in some positions
+// and makes the message fail in others (at the front, where its type sits in the IKE header).
+func (c *Ctx) typeCodeRule(r *Report, rule string, walker *ssa.Function) {
+	r.Rule(rule, "no error exit on the decode path (ParseHeader, IKEMessage.Decode, the chain walker, DecodeDecrypt / the unprotect path) is decided by a payload type code (header octet 16, octet 0 of a generic header, the walker's first-type argument, the NextPayload fields): type codes select decoders, unknown ones reach the default arm", 3)
+	var roots []*ssa.Function
+	for _, fn := range []*ssa.Function{c.Func("message", "ParseHeader"), c.Method("message", "IKEMessage", "Decode"), walker, c.Func("", "DecodeDecrypt"), c.Func("", "decryptMsg")} {
+		if fn != nil {
+			roots = append(roots, fn)
+		}
+	}
+	typeFields := map[string]bool{"message.IKEHeader.NextPayload": true, "message.Encrypted.NextPayload": true}
+	ph := c.Func("message", "ParseHeader")
+	seenFn := map[*ssa.Function]bool{}
+	scope := map[*ssa.Function]bool{}
+	for _, fn := range roots {
+		scope[fn] = true
+	}
+	n := 0
+	for _, fn := range roots {
+		if seenFn[fn] {
+			continue
+		}
+		seenFn[fn] = true
+		f := c.NewFA(fn)
+		x := newBVCtx(c, f)
+		taint := map[ssa.Value]bool{}
+		isSrc := func(v ssa.Value) bool {
+			if fk, ok := fieldKeyOfLoad(v); ok && typeFields[fk] {
+				return true
+			}
+			if p, ok := v.(*ssa.Parameter); ok && fn == walker && isIntType(p.Type()) {
+				return true
+			}
+			if id, ok := x.wireLeafOf(v); ok {
+				l := x.leaves[id]
+				if l.Octets == 1 && l.Off.isConst() {
+					if _, isParam := l.Root.(*ssa.Parameter); isParam && fn == ph && l.Off.C == 16 {
+						return true
+					}
+					if fn == walker && l.Off.C == 0 {
+						if _, isParam := l.Root.(*ssa.Parameter); !isParam {
+							return true // octet 0 of the cursor: the next payload's type
+						}
+					}
+				}
+			}
+			return false
+		}
+		intLike := func(t types.Type) bool {
+			if isIntType(t) {
+				return true
+			}
+			b, ok := t.Underlying().(*types.Basic)
+			return ok && b.Info()&types.IsBoolean != 0
+		}
+		for changed, it := true, 0; changed && it < 20; it++ {
+			changed = false
+			mark := func(v ssa.Value) {
+				if !taint[v] {
+					taint[v] = true
+					changed = true
+				}
+			}
+			for _, p := range fn.Params {
+				if isSrc(p) {
+					mark(p)
+				}
+			}
+			for _, b := range fn.Blocks {
+				for _, ins := range b.Instrs {
+					v, ok := ins.(ssa.Value)
+					if !ok || taint[v] {
+						continue
+					}
+					if isSrc(v) {
+						mark(v)
+						continue
+					}
+					switch e := v.(type) {
+					case *ssa.BinOp:
+						if taint[e.X] || taint[e.Y] {
+							mark(v)
+						}
+					case *ssa.UnOp:
+						if e.Op != token.MUL && taint[e.X] {
+							mark(v)
+						}
+					case *ssa.Convert:
+						if taint[e.X] {
+							mark(v)
+						}
+					case *ssa.ChangeType:
+						if taint[e.X] {
+							mark(v)
+						}
+					case *ssa.Phi:
+						for _, ed := range e.Edges {
+							if taint[ed] {
+								mark(v)
+							}
+						}
+					case *ssa.Lookup:
+						if taint[e.Index] {
+							mark(v)
+						}
+					case *ssa.Extract:
+						if taint[e.Tuple] {
+							mark(v)
+						}
+					case *ssa.Call:
+						// a predicate / conversion of the type code: the result depends on it
+						res := e.Type()
+						okRes := intLike(res)
+						if tup, ok := res.(*types.Tuple); ok {
+							for i := 0; i < tup.Len(); i++ {
+								if intLike(tup.At(i).Type()) {
+									okRes = true
+								}
+							}
+						}
+						if !okRes {
+							continue
+						}
+						args := e.Call.Args
+						if e.Call.IsInvoke() {
+							args = append([]ssa.Value{e.Call.Value}, args...)
+						}
+						for _, a := range args {
+							if taint[a] && intLike(a.Type()) {
+								mark(v)
+							}
+						}
+					}
+				}
+			}
+		}
+		for _, b := range fn.Blocks {
+			if f.Dead[b] {
+				continue
+			}
+			iff, ok := b.Instrs[len(b.Instrs)-1].(*ssa.If)
+			if !ok || b.Succs[0] == b.Succs[1] || !taint[iff.Cond] {
+				continue
+			}
+			n++
+			text := iff.Cond.String()
+			if v, ok := iff.Cond.(ssa.Instruction); ok {
+				if s := c.SrcExpr(v); s != "" {
+					text = s
+				}
+			}
+			key := fmt.Sprintf("%s: test on a type code `%s`", c.FuncName(fn), text)
+			if c.onlyErrorExit(b.Succs[0]) || c.onlyErrorExit(b.Succs[1]) {
+				r.bad(rule, key, c.InstrPos(iff), "one side of this test only returns an error: a datagram is refused because of the type code of a payload, so an unsupported non-critical payload in this position is not skipped")
+			} else {
+				r.ok(rule, key, c.InstrPos(iff), "selects a decoder / a path, both sides continue", true)
+			}
+		}
+	}
+	if n == 0 {
+		r.undecided(rule, "type-code tests", "-", "no test on a type code was found on the decode path (the switch of the walker should be one)")
+	}
 }
